@@ -27,6 +27,7 @@ type Stats struct {
 	Time                time.Duration
 	Restarts            int
 	Fallbacks           int
+	Hangs               int
 	Errors              []string
 }
 
@@ -162,8 +163,10 @@ func (s *Solver) send(line string) {
 	io.WriteString(s.in, "\n")
 }
 
-func (s *Solver) readLine() string {
-	line, err := s.out.ReadString('\n')
+func (s *Solver) readLine() string { return s.readLineFrom(s.out) }
+
+func (s *Solver) readLineFrom(out *bufio.Reader) string {
+	line, err := out.ReadString('\n')
 	if err != nil {
 		return "(error \"solver pipe: " + err.Error() + "\")"
 	}
@@ -375,30 +378,45 @@ func (s *Solver) Check() Result {
 func (s *Solver) checkRaw() Result {
 	t0 := time.Now()
 	s.send("(check-sat)")
-	var r Result
-	for {
-		line := s.readLine()
-		switch {
-		case line == "sat":
-			r = Sat
-		case line == "unsat":
-			r = Unsat
-		case line == "unknown" || line == "timeout":
-			r = Unknown
-		case strings.HasPrefix(line, "(error"):
-			s.Stats.Errors = append(s.Stats.Errors, line)
-			if strings.Contains(line, "solver pipe") {
+	done := make(chan Result, 1)
+	out := s.out
+	go func() {
+		var r Result
+		for {
+			line := s.readLineFrom(out)
+			switch {
+			case line == "sat":
+				r = Sat
+			case line == "unsat":
+				r = Unsat
+			case line == "unknown" || line == "timeout":
 				r = Unknown
-				break
+			case strings.HasPrefix(line, "(error"):
+				s.Stats.Errors = append(s.Stats.Errors, line)
+				if strings.Contains(line, "solver pipe") {
+					r = Unknown
+					break
+				}
+				continue
+			case line == "" || strings.HasPrefix(line, ";"):
+				continue
+			default:
+				s.Stats.Errors = append(s.Stats.Errors, "unexpected: "+line)
+				r = Unknown
 			}
-			continue
-		case line == "" || strings.HasPrefix(line, ";"):
-			continue
-		default:
-			s.Stats.Errors = append(s.Stats.Errors, "unexpected: "+line)
-			r = Unknown
+			break
 		}
-		break
+		done <- r
+	}()
+	var r Result
+	select {
+	case r = <-done:
+	case <-time.After(time.Duration(s.effectiveTimeout())*time.Millisecond + 10*time.Second):
+		// the solver ignored its own time limit: kill it and rebuild the assertion stack
+		s.Stats.Hangs++
+		s.rebuild()
+		<-done
+		r = Unknown
 	}
 	s.Stats.Time += time.Since(t0)
 	if s.Log != nil {
@@ -413,6 +431,29 @@ func (s *Solver) checkRaw() Result {
 		s.Stats.Unknown++
 	}
 	return r
+}
+
+// rebuild restarts the solver process and replays the assertion stack.
+func (s *Solver) rebuild() {
+	old := s.asserts
+	if s.cmd != nil {
+		s.in.Close()
+		s.cmd.Process.Kill()
+		s.cmd.Wait()
+		s.cmd = nil
+	}
+	if err := s.start(); err != nil {
+		s.Stats.Errors = append(s.Stats.Errors, "restart failed: "+err.Error())
+		return
+	}
+	for i, lv := range old {
+		if i > 0 {
+			s.Push()
+		}
+		for _, a := range lv {
+			s.Assert(a)
+		}
+	}
 }
 
 // CheckWith decides satisfiability of the stack plus extra, without keeping extra.
